@@ -16,7 +16,9 @@ RULE = ('fault = (producer i raises at position p | external maybe_stop() / mayb
         'queue configurations and generated schedules (deterministic scheduler); oracle: after a producer failure every consumer '
         'ends with that exception (never StopIteration, never blocked), nothing is delivered twice, every other producer returns '
         'and the failing one re-raises; after a stop request every thread finishes; with a timeout the starved side raises '
-        'TimeoutError; no explored schedule deadlocks; non-trivial = the fault happened while another thread was blocked on the '
+        'TimeoutError; no explored schedule deadlocks; async_queue_faults: an AsyncIteratorQueue fed by 1..3 async producers on a '
+        'real event loop, one of which fails at a generated position while the others are parked inside their iterators: every '
+        'consumer (get / get_batch / async_get) must observe the exception while the others are still parked; non-trivial = the fault happened while another thread was blocked on the '
         'queue (or, for timeouts, the timer fired); distinct = distinct canonical case JSON')
 ASSUMPTIONS = [
     'same scheduler trusted base as C04 (shim semantics, preemption at synchronisation operations, virtual clock for timed waits)',
@@ -147,6 +149,118 @@ def run_case(case):
           'extra': {'scheduling_points': s.steps, 'preemptions': s.preemptions}}
 
 
+# ------------------------------------------------------------------------------------------------ async producers
+def run_async(case):
+  """AsyncIteratorQueue fed by async producers on an event loop (real threads): one producer's iterator raises while the others
+  are still alive (parked inside their iterators until the harness releases them). Every consumer must observe the exception
+  *while the others are parked* (no indefinite wait), nothing is delivered twice, and after the release every producer ends."""
+  import asyncio  # pylint: disable=g-import-not-at-top
+  import threading  # pylint: disable=g-import-not-at-top
+  import time  # pylint: disable=g-import-not-at-top
+  from ml_metrics._src.utils import iter_utils  # pylint: disable=g-import-not-at-top
+  prods, cons, exc_t = case['producers'], case['consumers'], targets.EXC[case['exc']]
+  what = f'AsyncIteratorQueue(buffer={case["buffer"]}) producers={prods} consumers={cons} exc={case["exc"]}'
+  loop = asyncio.new_event_loop()
+  lt = threading.Thread(target=loop.run_forever, daemon=True)
+  lt.start()
+  q = iter_utils.AsyncIteratorQueue(case['buffer'], name='aq')
+  registered = [0]
+  holder = {}
+
+  async def make_events():
+    holder['barrier'], holder['gate'] = asyncio.Event(), asyncio.Event()
+  asyncio.run_coroutine_threadsafe(make_events(), loop).result(5)
+
+  async def agen(i, p):
+    registered[0] += 1
+    await holder['barrier'].wait()         # every producer is registered with the queue before any can finish
+    for k in range(p['n'] + 1):
+      if p.get('park_at') == k:
+        await holder['gate'].wait()
+      if p.get('fail_at') == k:
+        raise exc_t(f'producer {i} fails at {k}')
+      if k < p['n']:
+        yield (i, k)
+  futs = [asyncio.run_coroutine_threadsafe(q.async_enqueue_from_iterator(agen(i, p)), loop) for i, p in enumerate(prods)]
+  t0 = time.time()
+  while registered[0] < len(prods) and time.time() - t0 < 5:
+    time.sleep(0.001)
+  loop.call_soon_threadsafe(holder['barrier'].set)
+  received = [[] for _ in cons]
+  finals = [None] * len(cons)
+
+  def consumer(ci, mode):
+    try:
+      while True:
+        if mode == 'get':
+          received[ci].append(q.get())
+        elif mode == 'get_batch':
+          received[ci].extend(q.get_batch())
+        else:
+          received[ci].append(asyncio.run_coroutine_threadsafe(q.async_get(), loop).result())
+    except (StopIteration, StopAsyncIteration) as e:
+      finals[ci] = ('stop', e.args)
+    except Exception as e:  # pylint: disable=broad-exception-caught
+      finals[ci] = ('exc', e)
+  cths = [threading.Thread(target=consumer, args=(ci, m), daemon=True) for ci, m in enumerate(cons)]
+  for t in cths:
+    t.start()
+  deadline = time.time() + 6.0
+  for t in cths:
+    t.join(max(0.0, deadline - time.time()))
+  woken = [not t.is_alive() for t in cths]
+  loop.call_soon_threadsafe(holder['gate'].set)      # the parked producers may go on now
+  outcomes = []
+  for f in futs:
+    try:
+      f.result(6)
+      outcomes.append('returned')
+    except Exception as e:  # pylint: disable=broad-exception-caught
+      outcomes.append(e)
+  for t in cths:
+    t.join(6)
+  alive = [t.is_alive() for t in cths]
+  q.maybe_stop()
+  loop.call_soon_threadsafe(loop.stop)
+  lt.join(5)
+  parked = any(p.get('park_at') is not None for p in prods)
+  check(all(woken), 'consumer-not-woken-by-producer-failure',
+        f'{what}: consumers {[i for i, w in enumerate(woken) if not w]} were still blocked 6 s after start although a producer had '
+        f'failed' + (' (the other producers were parked, i.e. still alive)' if parked else '') + f'; finals={finals!r}')
+  check(not any(alive), 'consumer-did-not-terminate', f'{what}: consumers still blocked at the end: {alive}')
+  failing = [i for i, p in enumerate(prods) if p.get('fail_at') is not None][0]
+  for ci, f in enumerate(finals):
+    check(f is not None and f[0] == 'exc' and isinstance(f[1], exc_t), 'consumer-misses-producer-failure',
+          f'{what}: consumer {ci} ended with {f!r} instead of the producer\'s {exc_t.__name__}')
+  check(isinstance(outcomes[failing], exc_t), 'failing-producer-does-not-reraise', f'{what}: outcomes {outcomes!r}')
+  for i, o in enumerate(outcomes):
+    if i != failing:
+      check(o == 'returned', 'other-producer-did-not-return', f'{what}: producer {i} outcome {o!r}')
+  flat = [tuple(x) for r in received for x in r]
+  produced = {(i, k) for i, p in enumerate(prods) for k in range(p['n'])}
+  check(len(set(flat)) == len(flat), 'element-delivered-twice', f'{what}: received {received}')
+  check(set(flat) <= produced, 'element-invented', f'{what}: received {received}')
+  return {'nontrivial': parked and len(prods) >= 2, 'classes': ['async-producers', f'producers-{len(prods)}'] + (['others-parked'] if parked else [])}
+
+
+def strat_async(tier):
+  @st.composite
+  def s(draw):
+    n = draw(st.integers(1, 3))
+    failing = draw(st.integers(0, n - 1))
+    prods = []
+    for i in range(n):
+      m = draw(st.integers(0, 3))
+      if i == failing:
+        prods.append({'n': m, 'fail_at': draw(st.integers(0, m))})
+      else:
+        prods.append({'n': m, 'park_at': draw(st.one_of(st.none(), st.integers(0, m)))})
+    cons = draw(st.lists(st.sampled_from(['get', 'get', 'get_batch', 'async_get']), min_size=1, max_size=3))
+    return {'producers': prods, 'consumers': cons, 'buffer': draw(st.sampled_from([0, 0, 1, 2])),
+            'exc': draw(st.sampled_from(['ValueError', 'KeyError', 'RuntimeError']))}
+  return s()
+
+
 def strat(tier):
   @st.composite
   def s(draw):
@@ -178,4 +292,6 @@ def strat(tier):
 SCENARIOS = [
     Scenario('queue_faults', run_case, strategy=strat, setup=setup, budget={'quick': 6000, 'thorough': 120000},
              shards={'quick': 12, 'thorough': 16}),
+    Scenario('async_queue_faults', run_async, strategy=strat_async, budget={'quick': 160, 'thorough': 2500},
+             shards={'quick': 4, 'thorough': 16}, nondeterministic=True),
 ]
